@@ -3,6 +3,8 @@ from __future__ import annotations
 
 import ast
 
+from sa import collalg
+
 from sa.cfg import CFG
 from sa.context import Context, names_in, raises_in
 from sa.dataflow import TagFlow
@@ -12,6 +14,79 @@ from sa.valuation import Valuation
 
 SL = "sedpack.io.shard_file_metadata"
 MG = "sedpack.io.merge_shard_infos:merge_shard_infos"
+
+
+def merge_terms(ctx: Context) -> dict:
+    """Collection-algebra view of merge_shard_infos: the list object whose
+    write_config is returned, the final term of its children and the
+    grouping the recursion runs over."""
+    mg = ctx.fn(MG)
+    cached = ctx.__dict__.get("_merge_terms")
+    if cached is not None:
+        return cached
+    ca = collalg.CollAlg(mg)
+    objs = {dotted(r.func.value) for r in ca.returns if isinstance(
+        r, ast.Call) and isinstance(r.func, ast.Attribute) and
+        r.func.attr == "write_config"}
+    if len(objs) != 1 or None in objs:
+        raise AnalysisError("merge_shard_infos: the list whose write_config "
+                            "is returned could not be identified")
+    obj = objs.pop()
+    children = ca.env.get(obj + ".children_shard_lists",
+                          ("src", obj + ".children_shard_lists"))
+    groups = [t for t in collalg.spine(children) if t[0] == "group"]
+    out = dict(mg=mg, ca=ca, obj=obj, children=children,
+               group=groups[0] if len(groups) == 1 else None)
+    ctx.__dict__["_merge_terms"] = out
+    return out
+
+
+def is_recursive_merge(elt_text: str) -> bool:
+    try:
+        e = ast.parse(elt_text, mode="eval").body
+    except SyntaxError:
+        return False
+    if not (isinstance(e, ast.Call) and (dotted(e.func) or "").endswith(
+            "merge_shard_infos")):
+        return False
+    upd = next((k.value for k in e.keywords if k.arg == "updates"),
+               e.args[0] if e.args else None)
+    return dotted(upd) == "_v"
+
+
+def superseded_filter(part, upd_parts, children_src):
+    """`part` (known children carried into the recursion) must be
+    filter(<known children>, <path> not in S) with S the set of exactly that
+    path expression over the deeper updates."""
+    if part[0] != "filter" or part[1] != ("src", children_src):
+        return False, "moved without the superseded-by-update test"
+    text, refs = part[2]
+    try:
+        e = ast.parse(text, mode="eval").body
+    except SyntaxError:
+        return False, "test not understood"
+    if isinstance(e, ast.UnaryOp) and isinstance(e.op, ast.Not) and \
+            isinstance(e.operand, ast.Compare) and isinstance(
+                e.operand.ops[0], ast.In):
+        left, right = e.operand.left, e.operand.comparators[0]
+    elif isinstance(e, ast.Compare) and len(e.ops) == 1 and isinstance(
+            e.ops[0], ast.NotIn):
+        left, right = e.left, e.comparators[0]
+    else:
+        return False, f"test `{text}` is not a not-in test"
+    ltxt = ast.unparse(left)
+    if "file_path" not in ltxt:
+        return False, "test does not compare the list file path"
+    rd = dict(refs).get(dotted(right) or "")
+    if rd is None or rd[0] != "set":
+        return False, f"`{ast.unparse(right)}` is not a set built here"
+    inner = rd[1]
+    if inner[0] != "map" or inner[2] != ltxt:
+        return False, "the set does not hold the same path expression"
+    base_parts = collalg.concat_parts(inner[1])
+    if base_parts != upd_parts:
+        return False, "the set is not built from the deeper updates"
+    return True, ""
 
 
 def run(ctx: Context, rep) -> None:
@@ -197,38 +272,32 @@ def run(ctx: Context, rep) -> None:
         "tests compare with common + 1 and the recursive call passes "
         "common + 1")
     mg = ctx.fn(MG)
-    loops = [l for l in mg.body_nodes() if isinstance(l, ast.For) and
-             ast.unparse(l.iter).endswith(".children_shard_lists")]
-    moved = [c for l in loops for c in ast.walk(l) if isinstance(c, ast.Call)
-             and isinstance(c.func, ast.Attribute) and c.func.attr in (
-                 "append", "extend") and dotted(c.args[0] if c.args else None)
-             == dotted(l.target)]
-    if not moved:
-        raise AnalysisError("C08.dedup: move of known children into the "
-                            "update set not found")
-    for c in moved:
-        g = parent(parent(c))
-        ok = False
-        detail = "unguarded"
-        if isinstance(g, ast.If) and isinstance(g.test, ast.Compare) and \
-                isinstance(g.test.ops[0], ast.NotIn):
-            left, right = g.test.left, g.test.comparators[0]
-            # left: child's file path; right: set built from the updates' paths
-            rdef = None
-            for nn in mg.body_nodes():
-                if isinstance(nn, (ast.Assign, ast.AnnAssign)):
-                    t = nn.targets[0] if isinstance(nn, ast.Assign) else nn.target
-                    if dotted(t) == dotted(right):
-                        rdef = nn.value
-            ok = "file_path" in ast.unparse(left) and rdef is not None and \
-                "file_path" in ast.unparse(rdef) and any(
-                    isinstance(x, ast.comprehension) and dotted(x.iter) in (
-                        "deeper_updates", "updates") for x in ast.walk(rdef))
-            detail = short(g.test)
-        rep.ob("C08.dedup", ok, loc=mg.loc(c), where=mg.qualname,
-               construct=f"{short(c)} under: {detail}",
-               message="a child that is being updated must be superseded by "
-               "its update, not merged alongside it")
+    mt = merge_terms(ctx)
+    G = mt["group"]
+    children_src = mt["obj"] + ".children_shard_lists"
+    if G is None:
+        rep.ob("C08.dedup", False, loc=mg.loc(), where=mg.qualname,
+               construct=collalg.pretty(mt["children"])[:160],
+               message="the re-attached children are not the per-directory "
+               "merges of a grouping of the updates")
+    else:
+        parts = collalg.concat_parts(G[2])
+        upd_parts = [p for p in parts if collalg.sources(p) == {"updates"}]
+        old_parts = [p for p in parts if children_src in collalg.sources(p)]
+        rep.ob("C08.dedup", len(upd_parts) >= 1 and len(old_parts) >= 1 and
+               len(upd_parts) + len(old_parts) == len(parts), loc=mg.loc(),
+               where=mg.qualname,
+               construct="grouped = " + collalg.pretty(G[2])[:200],
+               message="the recursion receives the deeper updates and the "
+               "already known children of this list (nothing else, nothing "
+               "lost)")
+        for p in old_parts:
+            ok, detail = superseded_filter(p, upd_parts, children_src)
+            rep.ob("C08.dedup", ok, loc=mg.loc(), where=mg.qualname,
+                   construct=f"known children moved: {collalg.pretty(p)[:150]}",
+                   message="a child that is being updated must be superseded "
+                   "by its update, not merged alongside it" + (
+                       f" ({detail})" if detail else ""))
     text = ast.unparse(mg.node)
     slices = [n for n in mg.body_nodes() if isinstance(n, ast.Subscript) and
               ast.unparse(n.value).endswith(".parts")]
@@ -263,37 +332,20 @@ def run(ctx: Context, rep) -> None:
            message="updates are split into this level (== common + 1) and "
            "deeper (> common + 1), nothing is dropped")
     # the group key for each deeper update comes from that update's own path
-    keyed = [n for n in mg.body_nodes() if isinstance(n, ast.For) and
-             dotted(n.iter) == "deeper_updates"]
-    ok = False
-    if keyed:
-        body = ast.unparse(keyed[0])
-        ok = f"recursively_update[directory].append({keyed[0].target.id})" in body \
-            and f"{keyed[0].target.id}.shard_list_info_file.file_path" in body
-    if keyed:
-        kdefs = [n.value for n in ast.walk(keyed[0]) if isinstance(n, ast.Assign)
-                 and dotted(n.targets[0]) == "directory"]
-        ok = ok and len(kdefs) == 1 and any(
-            isinstance(x, ast.Subscript) and ast.unparse(x.value).endswith(
-                ".parts") and dotted(x.slice) == "common" or
-            (isinstance(x, ast.Subscript) and dotted(x.value) is not None and
-             dotted(x.slice) == "common" and "parts" in ast.unparse(keyed[0]))
-            for x in ast.walk(kdefs[0]))
-    rep.ob("C08.dedup", ok, loc=mg.loc(keyed[0]) if keyed else mg.loc(),
-           where=mg.qualname, construct="for update in deeper_updates: "
-           "recursively_update[parts[common]].append(update)",
-           message="every deeper update lands in the group of its own "
-           "directory")
+    ok = G is not None and G[4] == "_" and \
+        "_.shard_list_info_file.file_path.parts[common]" in G[3]
+    rep.ob("C08.dedup", ok, loc=mg.loc(), where=mg.qualname,
+           construct="group key: " + (G[3] if G is not None else "<none>"),
+           message="every deeper update lands (itself, unchanged) in the "
+           "group of its own directory")
     # merged children are all re-added
-    readd = [l for l in mg.body_nodes() if isinstance(l, ast.For) and
-             ast.unparse(l.iter) in ("merged.values()", )]
-    rep.ob("C08.dedup", len(readd) == 1 and any(
-        isinstance(c, ast.Call) and isinstance(c.func, ast.Attribute) and
-        c.func.attr == "append" and ast.unparse(c.func.value).endswith(
-            "children_shard_lists") for c in ast.walk(readd[0])) if readd
-           else False, loc=mg.loc(), where=mg.qualname,
-           construct="for child in merged.values(): children.append(child)",
-           message="every merged directory is listed as a child again")
+    cparts = collalg.concat_parts(mt["children"])
+    ok = G is not None and len(cparts) == 1 and cparts[0][0] == "map" and \
+        cparts[0][1] == ("items", G) and is_recursive_merge(cparts[0][2])
+    rep.ob("C08.dedup", ok, loc=mg.loc(), where=mg.qualname,
+           construct="children = " + collalg.pretty(mt["children"])[:120],
+           message="every merged directory (each group, unfiltered) is "
+           "listed as a child again, exactly once")
 
     # -- C08.create ---------------------------------------------------------------------
     rep.rule(
